@@ -1,9 +1,9 @@
 package props
 
 import (
-	"strings"
 	"context"
 	"fmt"
+	"strings"
 	"sync"
 	"time"
 
@@ -22,15 +22,15 @@ type c07Params struct {
 	Barrier bool        `json:"barrier"`
 	// SetupHandle: passing iterations with id%3==0 mark failure on the handle captured in setup, which is not
 	// their own; they and every other iteration still pass or fail by their own plan
-	SetupHandle bool   `json:"setup_handle,omitempty"`
+	SetupHandle bool `json:"setup_handle,omitempty"`
 	// SlowSink: every "recovered panic" record takes 15 ms to write (a slow terminal or log pipe)
 	SlowSink bool `json:"slow_sink,omitempty"`
 	// Timed: every second iteration performs its behaviour inside a t.Time(...) stage
 	Timed bool `json:"timed,omitempty"`
 	// CleanupFaults: two iterations in three register a cleanup that fails, stops or panics; that is after their own
 	// outcome was taken and says nothing about the next iteration on the worker
-	CleanupFaults bool `json:"cleanup_faults,omitempty"`
-	Desc        string `json:"desc"`
+	CleanupFaults bool   `json:"cleanup_faults,omitempty"`
+	Desc          string `json:"desc"`
 }
 
 func c07Plan(seed uint64, id uint64, kinds []int) int {
